@@ -359,7 +359,8 @@ impl C02 {
         let n = self.m.len();
         let cur = n.saturating_sub(1);
         let counts: Vec<u32> = {
-            let mut c = vec![1u32, 2, 3, (cur + 2) as u32];
+            // u32::MAX: "give me everything" - the largest count a client can ask for
+            let mut c = vec![1u32, 2, 3, (cur + 2) as u32, u32::MAX];
             c.sort();
             c.dedup();
             c
@@ -369,6 +370,7 @@ impl C02 {
         // by offset
         for o in 0..=cur + 2 {
             for &c in &counts {
+                crate::run::breadcrumb(&json!({"cfg": w.cfg.label(), "history": crate::plog::hist_str(ctx.hist), "then": format!("poll by offset {o} count {c}")}));
                 let got = w
                     .poll(&c77, Some(1), PollingStrategy::offset(o), c, false)
                     .map_err(|e| format!("poll offset({o},{c}) failed: {e}"))?;
